@@ -258,7 +258,8 @@ def values(out_path):
     # of the column, so pairs that differ only there are not compared.
     distinct = {"str": ["x", "  x", " x", "x y", "x  y", "    ", "", "X", "x.", "None", "1"], "int": [0, 1, -1, 10, 10 ** 30, -(10 ** 30)],
                 "bool": [True, False], "date": [date(2020, 2, 29), date(2020, 2, 28), date(1, 1, 1)], "float": [1.5, -1.5, 2.5, 0.0, float("inf"), 2.0 ** 70, 2.0 ** 70 + 2.0 ** 30, 1e16 + 2, 123456789012345678.0],
-                "int?": [1, 2, None], "datetime": [datetime(2020, 1, 1, 12, 30), datetime(2020, 1, 1, 12, 31), datetime(2020, 1, 1)],
+                "int?": [1, 2, None], "datetime": [datetime(2020, 1, 1, 12, 30), datetime(2020, 1, 1, 12, 31), datetime(2020, 1, 1), datetime(2020, 1, 1, 12, 30, 0, 5),
+                             datetime(2020, 1, 1, 12, 30, 0, 6), datetime(2020, 1, 1, 12, 30, 7)],
                 "complex": [1 + 2j, 1 - 2j, 2j]}
     for tag, vals in distinct.items():
         for a, b in itertools.combinations(vals, 2):
@@ -300,6 +301,20 @@ def values(out_path):
             if got[0] != want[0] or (got[0] == "ok" and got[1] != want[1]):
                 F.add("preview_rows", {"rows": nrows, "printed first under limit": first, "then under limit": second},
                       got[1][0] if got[0] == "ok" else repr(got[2]), want[1][0] if want[0] == "ok" else repr(want[2]))
+    # ... and printing one object (a peek() summary carries a preview limit of its own) does not change the limit for the others
+    for user_limit in (4, 6, None):
+        big = Table({"c%d" % i: [1, 2, 3] for i in range(9)})
+        long_v, long_t = Vector(list(range(10)), name="a"), Table({"a": list(range(10)), "b": list(range(10))})
+        set_repr_rows(user_limit)
+        want = attempt(lambda: (repr(Vector(list(range(10)), name="a")), repr(Table({"a": list(range(10)), "b": list(range(10))}))))
+        attempt(lambda: repr(big.peek()))
+        attempt(lambda: repr(big.T))
+        got = attempt(lambda: (repr(long_v), repr(long_t)))
+        set_repr_rows(None)
+        ex += 1
+        if got[0] != want[0] or (got[0] == "ok" and got[1] != want[1]):
+            F.add("preview_rows", {"limit set by the user": user_limit, "printed in between": "t.peek(), t.T"},
+                  got[1][0] if got[0] == "ok" else repr(got[2]), want[1][0] if want[0] == "ok" else repr(want[2]))
     # nested vectors of unequal length inside an object vector
     for inner in ([Vector([1, 2]), Vector([1, 2, 3])], [Vector([]), Vector([1])], [Vector(["a"]), 5, None]):
         case = {"dtype": "object", "special": "nested vectors", "n": len(inner)}
